@@ -36,7 +36,7 @@ CLAIMED.update({
          "PATH_COMPLETE w.r.t. the name handling; fault model: the default temp dir is another device (copy not atomic, rename fails with EXDEV), atomic rename either happens or not; names of 1-3 (quick) / 1-4 (thorough) code points"),
  "C13": ("(i) bounded model checking: for ordered pairs of pure-Python exporters (PROV-JSON container encoder, ==, unified, flattened, lookups) on documents with symbolic contents z3 shows strict content, record order, registered and default namespaces identical before/after and the container unchanged; (ii) on every construction-path witness the unmodified build runs all 15 exporters (json +options, xml +/-force_types, provn, rdf, graph, dot, ==, hash, unified, flattened, lookups) and all 225 ordered pairs: snapshot unchanged, identical text on repetition and on a twin document built by the same calls (RDF: canonicalised graphs)", "4/C13",
          "pure exporters for-all within bounds; C-backed exporters (lxml, rdflib, networkx, pydot) on one representative per construction path; determinism across processes / hash seeds outside the claim"),
- "C16": ("exhaustive enumeration, by the path search, of the 1440 configurations format x destination kind x source kind x prov.read with/without format x 9 document variants (non-ASCII content; three > 16 KiB multi-byte documents; path destinations also over a longer pre-existing file); each configuration is executed on the unmodified build (real streams and files) and compared strictly", "4/C16",
+ "C16": ("exhaustive enumeration, by the path search, of the 2880 configurations format x destination kind x source kind x prov.read with/without format x 10 document variants x 3 file names (plain, URL syntax, non-ASCII) wherever a path is destination or source (non-ASCII content; three > 16 KiB multi-byte documents; path destinations also over a longer pre-existing file); each configuration is executed on the unmodified build (real streams and files) and compared strictly", "4/C16",
          "the weakest use of the technique: no symbolic content, the solver only enumerates the finite configuration space (stated in DESIGN.md); RDF compared against unified()"),
  "C07": ("exhaustive enumeration, by the path search, of the structural space of PROV-O-expressible documents (14 relation kinds x identified/anonymous x optional-argument masks x 0-2 extra attributes of 13 kinds x element attributes/times x document/bundle x all 182 ordered pairs of relation kinds); every configuration is written as TriG and read back by the real rdflib stack on the unmodified build and compared (set-based, strict) with unified()", "4/C07",
          "weakest fit (stated in DESIGN.md): rdflib is entered at the first statement, so there is no symbolic content - the solver only enumerates the finite structural space; the quantifier's exclusions are assumptions; one known finding (attributed-anonymous + plain relation of one kind on one subject)"),
